@@ -54,6 +54,14 @@ contract(
         "implies(old(self.resumed) and self._flow_proposal.resume_populated "
         "and len(self._flow_proposal.indices) > 0, "
         "self._flow_proposal.populated)",
+        # ... and only then: a pool the writer had discarded (retrained
+        # flow: populated False at the checkpoint, leftover indices) is NOT
+        # revived
+        "implies(old(self.resumed) and not "
+        "(self._flow_proposal.resume_populated and "
+        "len(self._flow_proposal.indices) > 0), "
+        "self._flow_proposal.populated == "
+        "old(self._flow_proposal.populated))",
         "implies(not old(self.resumed), self._flow_proposal.populated == "
         "old(self._flow_proposal.populated))",
         "not self.resumed",
